@@ -403,6 +403,13 @@ func (ex *Expect) evalComponent(ni int) {
 		in := ex.inStream(n.Ins[0])
 		carrier := Item{IsSub: true, Sub: append([]Item(nil), in.Items...), Lin: newLin(), Path: "<substream-carrier>"}
 		ex.Streams[n.Name+".substream"] = &Stream{Ordered: in.Ordered, Items: []Item{carrier}}
+	case KMultiSub:
+		st := &Stream{Ordered: true}
+		for _, in := range n.Ins {
+			up := ex.inStream(in)
+			st.Items = append(st.Items, Item{IsSub: true, Sub: append([]Item(nil), up.Items...), Lin: newLin(), Path: "<substream-carrier>"})
+		}
+		ex.Streams[n.Name+".out"] = st
 	case KFileCombinator:
 		// canonical product order: ports sorted by name, first port slowest
 		var names []string
